@@ -81,18 +81,20 @@ structure Impl (σ : Type) where
   freeList : σ → List Nat → Option σ
 
 /-- `I` refines `AllocSpec` through abstraction `abs n` and invariant `inv n`
-for every device size `n`. -/
+for every device size `n`.  (`FreeContiguous` is only specified for `count ≥ 1`: the only
+caller passes the count of a successful allocation; with `count = 0` and `first` beyond the
+device the bitmap implementation indexes outside its slice.) -/
 structure Meets {σ : Type} (I : Impl σ) (inv : Nat → σ → Prop) (abs : Nat → σ → Abs) : Prop where
   new_inv : ∀ n, inv n (I.new n)
   new_abs : ∀ n s, abs n (I.new n) s = false
   abs_wf : ∀ n st, inv n st → WF n (abs n st)
-  alloc_inv : ∀ n st max, inv n st → inv n (I.alloc st max).1
+  alloc_inv : ∀ n st max, inv n st → 1 ≤ max → inv n (I.alloc st max).1
   alloc_ok : ∀ n st max first count, inv n st → 1 ≤ max →
     (I.alloc st max).2 = some (first, count) →
     AllocOk n (abs n st) max first count (abs n (I.alloc st max).1)
   alloc_fail : ∀ n st max, inv n st → (I.alloc st max).2 = none →
     AllocFail n (abs n st) (abs n (I.alloc st max).1)
-  freeContiguous_ok : ∀ n st first count, inv n st → FreeContiguousPre (abs n st) first count →
+  freeContiguous_ok : ∀ n st first count, inv n st → 1 ≤ count → FreeContiguousPre (abs n st) first count →
     ∃ st', I.freeContiguous st first count = some st' ∧ inv n st' ∧
       FreeContiguousPost (abs n st) first count (abs n st')
   freeList_ok : ∀ n st sectors, inv n st → FreeListPre (abs n st) sectors →
